@@ -100,6 +100,8 @@ class FluentWorklist(BaseWorklist):
         lengths = (len(source_wells), len(destination_wells), len(volumes))
         if len(set(lengths)) != 1:
             raise ValueError(f"Number of source/destination/volumes must be equal. They were {lengths}")
+        if not np.all(volumes >= 0):
+            raise ValueError("Volumes must be positive or zero.")
 
         # automatic partitioning
         partition_by = optimize_partition_by(source, destination, partition_by, label)
